@@ -23,9 +23,13 @@
 // to each of them: state that leaks from one converter object to another (a cache keyed on part
 // of the parameters, a static buffer) shows as the sibling's projection in place of one's own.
 #include <deque>
+#include <iomanip>
 #include <memory>
 #include <optional>
+#include <sstream>
+#include <type_traits>
 #include <Eigen/Core>
+#include "romea_core_common/geodesy/ECEFConverter.hpp"
 #include "romea_core_common/geodesy/LambertConverter.hpp"
 #include "vh.hpp"
 #include "vh_hooks.hpp"
@@ -92,6 +96,9 @@ struct PSet
   std::string name = "random";
   const char * ell = "";
   const char * radius_kind = "";   // spheres: round / authalic / continuous
+  bool use_static_grs80 = false;   // pass the library's EarthEllipsoid::GRS80 object itself
+  const char * extreme = "";       // "", "semi_major_axis", "false_origin"
+  bool signed_zero = false;        // some zero parameter is -0.0
   int ell_id = 0;
   double a = 0, b = 0;
   double lat0 = 0, lon0 = 0, lat1 = 0, lat2 = 0, k0 = 1, x0 = 0, y0 = 0;
@@ -134,7 +141,9 @@ static bool pinned_by_tests(const PSet & p) {return p.zone == 5 /*CC46*/ || p.zo
 static void pick_ellipsoid(vh::Rng & r, PSet & p)
 {
   int k = (int)r.range(0, 9);
-  if (k <= 1) {p.ell = "GRS80"; p.ell_id = 0; p.a = GRS80_A; p.b = GRS80_B;} else if (k == 2) {
+  if (k <= 1) {
+    p.ell = "GRS80"; p.ell_id = 0; p.a = GRS80_A; p.b = GRS80_B; p.use_static_grs80 = r.coin();
+  } else if (k == 2) {
     p.ell = "Clarke1880IGN"; p.ell_id = 1; p.a = CLARKE_A; p.b = CLARKE_B;
   } else if (k == 3) {p.ell = "International1924"; p.ell_id = 2; p.a = INTL_A; p.b = INTL_B;} else if (k == 4) {
     // e = 0: the radius is a free parameter too (round values, the authalic radius, any double)
@@ -182,9 +191,35 @@ static PSet random_set(vh::Rng & r)
   }
   int lom = (int)r.range(0, 5);
   p.lon0 = lom == 0 ? 0.0 : lom == 1 ? r.sign() * 149.0 * DEG : r.uni(-149.0, 149.0) * DEG;
-  int fm = (int)r.range(0, 4);
-  if (fm == 0) {p.x0 = 0; p.y0 = 0;} else if (fm == 1) {p.x0 = 700000; p.y0 = 6600000;} else {
+  int fm = (int)r.range(0, 5);
+  if (fm == 0) {p.x0 = 0; p.y0 = 0;} else if (fm == 1) {p.x0 = 700000; p.y0 = 6600000;} else if (fm == 2) {
+    p.x0 = p.y0 = r.uni(-2e6, 2e6);                       // equal components
+  } else {
     p.x0 = r.uni(-2e6, 2e6); p.y0 = r.uni(-1e7, 1e7);
+  }
+  // signed zeros where a parameter is zero
+  if (r.coin(0.25)) {
+    if (p.lon0 == 0.0) {p.lon0 = -0.0; p.signed_zero = true;}
+    if (p.x0 == 0.0) {p.x0 = -0.0; p.signed_zero = true;}
+    if (p.y0 == 0.0 && r.coin()) {p.y0 = -0.0; p.signed_zero = true;}
+  }
+  // extreme magnitudes of the parameters the statement leaves free
+  int xm = (int)r.range(0, 49);
+  if (xm == 0) {
+    // the whole figure scaled: semi-major axis 1e-100 .. 1e100 times the Earth's (a*a in
+    // EarthEllipsoid stays a normal double up to ~1e+-150), false origin scaled along
+    double s = std::pow(10.0, r.coin(0.3) ? r.sign() * 100.0 : r.uni(-100.0, 100.0));
+    if (r.coin(0.2)) {s = 1.0 / p.a;}                     // unit sphere / unit ellipsoid
+    p.a *= s; p.b *= s; p.x0 *= s; p.y0 *= s; p.use_static_grs80 = false;
+    if (p.b > p.a) {p.b = p.a;}
+    p.extreme = "semi_major_axis"; p.ell = p.a == p.b ? "sphere" : "random"; p.ell_id = p.a == p.b ? 3 : 4;
+    if (p.a == p.b) {p.radius_kind = "continuous";}
+  } else if (xm == 1) {
+    // false origin up to 3e9 m: beyond ~1e10 m one ulp of an easting (2e-6 m) is itself a
+    // sizeable part of 1e-11 rad at 83 deg of latitude, whatever the implementation
+    p.x0 = r.sign() * (r.coin(0.3) ? 3e9 : r.logu(1e7, 3e9));
+    p.y0 = r.coin(0.3) ? p.x0 : r.sign() * (r.coin(0.3) ? 3e9 : r.logu(1e7, 3e9));
+    p.extreme = "false_origin";
   }
   return p;
 }
@@ -195,14 +230,33 @@ static PSet random_set(vh::Rng & r)
 // ------------------------------------------------------------------------------------------
 // How the converter under test comes into being.  A copy / a moved-to object must behave like an
 // independent object once its source holds another configuration or is gone (value semantics).
-enum Construction {DIRECT = 0, COPY_SOURCE_OVERWRITTEN, MOVE_SOURCE_OVERWRITTEN, COPY_SOURCE_DESTROYED, VECTOR_GROWTH};
+enum Construction
+{
+  DIRECT = 0, COPY_SOURCE_OVERWRITTEN, MOVE_SOURCE_OVERWRITTEN, COPY_SOURCE_DESTROYED, VECTOR_GROWTH,
+  COPY_ASSIGNED, MOVE_ASSIGNED, SELF_ASSIGNED, COPY_SOURCE_KEPT,
+  CTOR_SIX_SCALARS_CLOBBERED, CTOR_CONSTANTS_STRUCT_CLOBBERED, N_CONSTRUCTIONS
+};
 static const char * const CONSTRUCTION_NAME[] = {
-  "direct", "copy_source_overwritten", "move_source_overwritten", "copy_source_destroyed", "vector_growth"};
+  "direct", "copy_source_overwritten", "move_source_overwritten", "copy_source_destroyed", "vector_growth",
+  "copy_assigned", "move_assigned", "self_assigned", "copy_source_kept_both_used",
+  "ctor_six_scalars_then_clobbered", "ctor_constants_struct_then_clobbered"};
+
+// assignment only where the class offers it (a class that lost it leaves the categories empty,
+// which makes the run inconclusive instead of failing to compile)
+template<class C> static bool assign_copy(C & dst, const C & src)
+{
+  if constexpr (std::is_copy_assignable_v<C>) {dst = src; return true;} else {(void)dst; (void)src; return false;}
+}
+template<class C> static bool assign_move(C & dst, C & src)
+{
+  if constexpr (std::is_move_assignable_v<C>) {dst = std::move(src); return true;} else {(void)dst; (void)src; return false;}
+}
 
 // calls f(parameter struct, ellipsoid) with the public parameter struct of the set
 template<class F> static auto with_parameters(const PSet & s, F && f)
 {
-  EarthEllipsoid ell(s.a, s.b);
+  EarthEllipsoid local(s.a, s.b);
+  const EarthEllipsoid & ell = s.use_static_grs80 ? EarthEllipsoid::GRS80 : local;
   if (s.tangent) {
     return f(LambertConverter::TangentProjectionParameters{s.lat0, s.lon0, s.k0, s.x0, s.y0}, ell);
   }
@@ -217,15 +271,17 @@ struct Unit
   std::unique_ptr<LambertConverter> own, source_heap, spare;
   std::optional<LambertConverter> source_slot;
   std::vector<LambertConverter> vec;
-  LambertConverter * conv = nullptr;
+  const LambertConverter * conv = nullptr;     // (all conversions are const members)
+  bool assignment_available = true;
+  EarthEllipsoid ell_obj;
   int construction = DIRECT;
   double e_lib;
-  LD snyder_tol;
+  LD snyder_tol, origin_tol, len_scale;
   bool south;
   bool inverse_dead = false;     // after a non-terminating inverse stop calling it for this unit
 
   Unit(const PSet & ps, int how = DIRECT, const PSet * other = nullptr)
-  : p(ps), construction(how), e_lib(EarthEllipsoid(ps.a, ps.b).e), south(ps.lat0 < 0)
+  : p(ps), ell_obj(ps.a, ps.b), construction(how), e_lib(EarthEllipsoid(ps.a, ps.b).e), south(ps.lat0 < 0)
   {
     auto heap = [](const auto & pp, const EarthEllipsoid & e) {return new LambertConverter(pp, e);};
     auto slot = [this](const auto & pp, const EarthEllipsoid & e) {
@@ -259,6 +315,62 @@ struct Unit
         for (int i = 0; i < 4; ++i) {with_parameters(*other, push);} // ... relocated by the growth
         conv = &vec[0];
         break;
+      case COPY_ASSIGNED:
+        own.reset(with_parameters(*other, heap));                    // target held another zone
+        with_parameters(p, slot);
+        assignment_available = assign_copy(*own, *source_slot);
+        with_parameters(*other, slot);                               // source overwritten afterwards
+        if (!assignment_available) {own.reset(with_parameters(p, heap));}
+        conv = own.get();
+        break;
+      case MOVE_ASSIGNED:
+        own.reset(with_parameters(*other, heap));
+        with_parameters(p, slot);
+        assignment_available = assign_move(*own, *source_slot);
+        with_parameters(*other, slot);
+        if (!assignment_available) {own.reset(with_parameters(p, heap));}
+        conv = own.get();
+        break;
+      case SELF_ASSIGNED: {
+          own.reset(with_parameters(p, heap));
+          LambertConverter & alias = *own;
+          assignment_available = assign_copy(*own, alias);
+          conv = own.get();
+          break;
+        }
+      case COPY_SOURCE_KEPT:
+        with_parameters(p, slot);                                    // the source stays as it is and is
+        own.reset(new LambertConverter(*source_slot));               // used in turn with its copy
+        conv = own.get();
+        break;
+      case CTOR_SIX_SCALARS_CLOBBERED: {
+          // raw constructors fed with the library's own constants, by reference, from storage that
+          // is overwritten with another zone's constants right after the construction
+          auto pp = with_parameters(p, [](const auto & q, const EarthEllipsoid & e) {
+                return LambertConverter::computeProjectionParameters(q, e);
+              });
+          auto po = with_parameters(*other, [](const auto & q, const EarthEllipsoid & e) {
+                return LambertConverter::computeProjectionParameters(q, e);
+              });
+          double e = e_lib;
+          own.reset(new LambertConverter(pp.longitude0, pp.n, pp.c, pp.xs, pp.ys, e));
+          pp = po; e = EarthEllipsoid(other->a, other->b).e;
+          conv = own.get();
+          break;
+        }
+      case CTOR_CONSTANTS_STRUCT_CLOBBERED: {
+          auto pp = with_parameters(p, [](const auto & q, const EarthEllipsoid & e) {
+                return LambertConverter::computeProjectionParameters(q, e);
+              });
+          auto po = with_parameters(*other, [](const auto & q, const EarthEllipsoid & e) {
+                return LambertConverter::computeProjectionParameters(q, e);
+              });
+          double e = e_lib;
+          own.reset(new LambertConverter(pp, e));
+          pp = po; e = EarthEllipsoid(other->a, other->b).e;
+          conv = own.get();
+          break;
+        }
       default:
         own.reset(with_parameters(p, heap));                         // constructed in place
         conv = own.get();
@@ -272,7 +384,19 @@ struct Unit
     LD cond = 1;
     if (!p.tangent) {cond = 1 / fabsl(logl(t_of(p.lat1, ref.e)) - logl(t_of(p.lat2, ref.e)));}
     const LD EPS = std::numeric_limits<double>::epsilon();
-    snyder_tol = std::max<LD>(1e-6L, 64 * EPS * (cond + 4) * (fabsl(ref.rho0) + fabsl(p.x0) + fabsl(p.y0)));
+    // lengths are judged at the scale of the figure: 1e-7 m / 1e-6 m on the Earth (a = 6378137 m)
+    len_scale = (LD)p.a / 6378137.0L;
+    const LD magnitude = fabsl(ref.rho0) + fabsl(p.x0) + fabsl(p.y0);
+    snyder_tol = std::max<LD>(1e-6L * len_scale, 64 * EPS * (cond + 4) * magnitude);
+    // "maps to (x0, y0)" to rounding: one ulp of ys = y0 + rho0 is the best any double result can do
+    origin_tol = std::max<LD>(1e-7L * len_scale, 8 * EPS * magnitude);
+  }
+  // the kept source of another unit's copy: same parameter set, converter owned elsewhere
+  Unit(const PSet & ps, const LambertConverter * borrowed)
+  : Unit(ps)
+  {
+    conv = borrowed;
+    own.reset();
   }
   Unit(const Unit &) = delete;
   Unit & operator=(const Unit &) = delete;
@@ -313,8 +437,9 @@ static const char * make_sibling(vh::Rng & r, const PSet & p, PSet & q)
     return "latitude0";
   }
   if (k == 1) {
-    if (r.coin()) {q.x0 = p.x0 + r.sign() * r.logu(1e-3, 1e6); q.y0 = p.y0;} else {
-      q.x0 = r.uni(-2e6, 2e6); q.y0 = r.uni(-1e7, 1e7);
+    const double ls = p.a / 6378137.0;      // lengths at the scale of the figure
+    if (r.coin()) {q.x0 = p.x0 + r.sign() * r.logu(1e-3, 1e6) * ls; q.y0 = p.y0;} else {
+      q.x0 = r.uni(-2e6, 2e6) * ls; q.y0 = r.uni(-1e7, 1e7) * ls;
     }
     return "false_origin";
   }
@@ -322,6 +447,7 @@ static const char * make_sibling(vh::Rng & r, const PSet & p, PSet & q)
     // other semi-major axis, same shape: e stays bit-identical for a sphere and is re-drawn a few
     // times to make it bit-identical for an ellipsoid (otherwise equal to 1 ulp)
     double e0 = EarthEllipsoid(p.a, p.b).e;
+    q.use_static_grs80 = false;
     for (int t = 0; t < 6; ++t) {
       double s = 1.0 + r.sign() * r.logu(1e-6, 1e-3);
       q.a = p.a * s; q.b = (p.b == p.a) ? q.a : p.b * s;
@@ -356,23 +482,37 @@ static void one_case(vh::Ctx & c, uint64_t idx)
     c.cat("ellipsoid_tiny_eccentricity");
   }
   if (p.zone >= 0) {c.cat("named_zone"); c.cat("zone_" + p.name);}
+  if (p.extreme[0]) {c.cat(std::string("extreme_") + p.extreme);}
+  if (p.signed_zero) {c.cat("signed_zero_parameter");}
+  if (p.use_static_grs80) {c.cat("static_GRS80_object_passed");}
 
   // ---- units: the set alone, or the set and a sibling used in turn on identical points
   std::deque<Unit> U;           // (deque: the units themselves are never relocated)
   int how = DIRECT;
   PSet other;
   if (r.coin(0.3)) {
-    how = (int)r.range(COPY_SOURCE_OVERWRITTEN, VECTOR_GROWTH);
+    how = (int)r.range(COPY_SOURCE_OVERWRITTEN, N_CONSTRUCTIONS - 1);
     if (r.coin()) {
       int z = (int)r.range(0, NZONES - 1);
       other = zone(z == p.zone ? (z + 1) % NZONES : z);
     } else {other = random_set(r);}
-    c.cat("value_semantics");
-    c.cat(std::string("value_semantics_") + CONSTRUCTION_NAME[how]);
   }
   U.emplace_back(p, how, &other);
+  if (how != DIRECT) {
+    if (!U[0].assignment_available) {c.cat("assignment_unavailable");} else if (how >= CTOR_SIX_SCALARS_CLOBBERED) {
+      c.cat("constructor_overloads");
+      c.cat(std::string("constructor_") + CONSTRUCTION_NAME[how]);
+    } else {
+      c.cat("value_semantics");
+      c.cat(std::string("value_semantics_") + CONSTRUCTION_NAME[how]);
+    }
+  }
   const char * sib = "";
-  if (r.coin(0.4)) {
+  if (how == COPY_SOURCE_KEPT) {
+    // the copy and its untouched source are used in turn: neither may be affected by the other
+    sib = "nothing_copy_and_its_source";
+    U.emplace_back(p, &*U[0].source_slot);
+  } else if (r.coin(0.4)) {
     PSet q;
     sib = make_sibling(r, p, q);
     U.emplace_back(q);
@@ -436,19 +576,91 @@ static void one_case(vh::Ctx & c, uint64_t idx)
   const double BOX_LAT = 8 * DEG, BOX_LON = 30 * DEG, BOX_SLACK = 1e-12;
   const double H = 2e-4;
 
+  auto same_bits = [](double x, double y) {return std::memcmp(&x, &y, sizeof x) == 0;};
+  const Unit & ua = U[0];
+  const Unit & ub = U[NU - 1];
+
+  // ---- long history: many calls on the object(s) before anything is observed
+  {
+    uint64_t nrep = 0;
+    if (r.coin(0.02)) {nrep = 256 + r.range(0, 3); c.cat("long_history_2p8_calls");} else if (r.coin(0.003)) {
+      nrep = 65536 + r.range(0, 3); c.cat("long_history_2p16_calls");
+    }
+    double acc = 0;
+    for (uint64_t i = 0; i < nrep; ++i) {
+      const Unit & u = (i & 1) ? ub : ua;
+      double la = p.lat0 + ((i % 3) - 1.0) * 0.01, lo = p.lon0 + ((i % 5) - 2.0) * 0.02;
+      acc += u.conv->toLambert(WGS84Coordinates{la, lo}).x();
+    }
+    if (nrep && !std::isfinite(acc)) {c.count("long_history_nonfinite_sum");}
+  }
+
+  // ---- result stability: results bound as the signatures allow, kept until the end of the case
+  const WGS84Coordinates probe_w{p.lat0 + r.uni(-BOX_LAT, BOX_LAT), p.lon0 + r.uni(-BOX_LON, BOX_LON)};   // lvalues
+  const auto & kept_fa = ua.conv->toLambert(probe_w);
+  const double fa0[2] = {kept_fa.x(), kept_fa.y()};
+  const auto & kept_fb = ub.conv->toLambert(probe_w);
+  const double fb0[2] = {kept_fb.x(), kept_fb.y()};
+  const Eigen::Vector2d probe_xy(fa0[0], fa0[1]);
+  lw.reset_case();
+  const auto & kept_inv = ua.conv->toWGS84(probe_xy);
+  const bool probe_inv_ok = !lw.tripped;
+  const double inv0[2] = {kept_inv.latitude, kept_inv.longitude};
+  const auto & kept_pp = library_constants(p);
+  const double pp0[5] = {kept_pp.longitude0, kept_pp.n, kept_pp.c, kept_pp.xs, kept_pp.ys};
+
+  // ---- argument aliasing / value categories of the by-reference static helpers and constructors
+  {
+    lat = probe_w.latitude; lon = probe_w.longitude; pcat = "aliasing_probe"; cu = 0;
+    double v = r.uni(1e-3, 0.1);          // a value that is a valid latitude, isometric latitude and e
+    const double v1 = v, v2 = v, v3 = v;
+    lw.reset_case();
+    double al[3] = {LambertConverter::computeLatitude(v, v), LambertConverter::computeIsometricLatitude(v, v),
+      LambertConverter::computeGrandeNormal(v, v, v)};
+    double sep[3] = {LambertConverter::computeLatitude(v1, v2), LambertConverter::computeIsometricLatitude(v1, v2),
+      LambertConverter::computeGrandeNormal(v1, v2, v3)};
+    double tmp[3] = {LambertConverter::computeLatitude(v + 0.0, v * 1.0),
+      LambertConverter::computeIsometricLatitude(v + 0.0, v * 1.0),
+      LambertConverter::computeGrandeNormal(v + 0.0, v * 1.0, double(v))};
+    bool ok = true;
+    for (int i = 0; i < 3; ++i) {ok = ok && same_bits(al[i], sep[i]) && same_bits(tmp[i], sep[i]);}
+    c.expect("aliasing.static_helpers_same_object_for_all_arguments", ok && !lw.tripped, "argument_aliasing",
+      params, [&]() {
+        return vh::J().f("v", v).f("computeLatitude_aliased", al[0]).f("computeLatitude_separate", sep[0])
+               .f("computeIsometricLatitude_aliased", al[1]).f("computeIsometricLatitude_separate", sep[1])
+               .f("computeGrandeNormal_aliased", al[2]).f("computeGrandeNormal_separate", sep[2]).str();
+      });
+    // six-scalar constructor: one variable for xs and ys, the library's own constants passed by
+    // reference out of the struct it returned
+    double xy = kept_pp.xs;
+    const double e = ua.e_lib;
+    LambertConverter aliased(kept_pp.longitude0, kept_pp.n, kept_pp.c, xy, xy, e);
+    LambertConverter separate(pp0[0], pp0[1], pp0[2], pp0[3], pp0[3], ua.e_lib);
+    Eigen::Vector2d q1 = aliased.toLambert(probe_w), q2 = separate.toLambert(probe_w);
+    c.expect("aliasing.constructor_one_variable_for_xs_and_ys", same_bits(q1.x(), q2.x()) && same_bits(q1.y(), q2.y()),
+      "argument_aliasing", params, [&]() {
+        return vh::J().f("x_aliased", q1.x()).f("y_aliased", q1.y()).f("x_separate", q2.x()).f("y_separate", q2.y()).str();
+      });
+  }
+
   for (int ip = 0; ip < P; ++ip) {
     // ---------------------------------------------------------------- point selection
     // special points are taken in turn from either unit's parameter set (b: base unit)
     const int b = (NU > 1 && (ip & 1)) ? 1 : 0;
     const PSet & bp = U[b].p;
     double dlon = 0;
+    // offsets from the origin: log-spaced tiny ones (down to a denormal), the box edge, exact
+    // (signed) zero, whole degrees, uniform
     auto rnd_dlon = [&]() {
-        int m = (int)r.range(0, 5);
-        return m == 0 ? r.sign() * r.logu(1e-12, 0.5) : m == 1 ? r.sign() * BOX_LON : r.uni(-BOX_LON, BOX_LON);
+        int m = (int)r.range(0, 9);
+        return m == 0 ? r.sign() * (r.coin(0.1) ? 4.9406564584124654e-324 : r.logu(1e-12, 0.5)) :
+               m == 1 ? r.sign() * BOX_LON : m == 2 ? r.sign() * 0.0 :
+               m == 3 ? (double)r.range(-30, 30) * DEG : r.uni(-BOX_LON, BOX_LON);
       };
     auto rnd_dlat = [&]() {
-        int m = (int)r.range(0, 5);
-        return m == 0 ? r.sign() * r.logu(1e-12, 0.13) : m == 1 ? r.sign() * BOX_LAT : r.uni(-BOX_LAT, BOX_LAT);
+        int m = (int)r.range(0, 9);
+        return m == 0 ? r.sign() * r.logu(1e-12, 0.13) : m == 1 ? r.sign() * BOX_LAT : m == 2 ? r.sign() * 0.0 :
+               m == 3 ? (double)r.range(-8, 8) * DEG : r.uni(-BOX_LAT, BOX_LAT);
       };
     const int slot = NU > 1 ? ip / 2 : ip;       // with siblings each special slot is used once per unit
                                                  // (slots 0..5 then cover ip 0..11)
@@ -469,7 +681,18 @@ static void one_case(vh::Ctx & c, uint64_t idx)
     } else if (slot == 5) {
       pcat = "box_corner"; lat = bp.lat0 + r.sign() * BOX_LAT; lon = bp.lon0 + r.sign() * BOX_LON;
     } else {
-      pcat = "generic"; lat = bp.lat0 + rnd_dlat(); lon = bp.lon0 + rnd_dlon();
+      pcat = "generic";
+      double dla = rnd_dlat(), dlo = rnd_dlon();
+      int sm = (int)r.range(0, 19);
+      if (sm == 0) {dlo = dla; c.count("points_with_equal_offsets");}          // equal components
+      lat = bp.lat0 + dla; lon = bp.lon0 + dlo;
+      if (sm == 1) {
+        // whole degrees of latitude and longitude (if that stays inside the box)
+        double la = std::round(lat / DEG) * DEG, lo = std::round(lon / DEG) * DEG;
+        if (std::fabs(la - bp.lat0) <= BOX_LAT && std::fabs(lo - bp.lon0) <= BOX_LON) {
+          lat = la; lon = lo; c.count("points_at_whole_degrees");
+        }
+      }
     }
     c.cat(std::string("pt_") + pcat);
 
@@ -514,6 +737,32 @@ static void one_case(vh::Ctx & c, uint64_t idx)
       cu = u;
       pu[u].ok = c.expect("forward.finite", fwd(u, lat, lon, pu[u].X), "nonfinite", params, wit);
     }
+    // ---- every 4th point: neighbouring facilities are used between two observations of the same
+    //      quantity (stream formatting, the ECEF converter on the shared GRS80 object, the static
+    //      helpers); the second observation, with an lvalue argument, must be bit-identical
+    if ((ip & 3) == 2) {
+      std::ostringstream os;
+      os << std::setprecision(3) << std::scientific << WGS84Coordinates{lat, lon};
+      romea::core::ECEFConverter ecef;
+      Eigen::Vector3d x3 = ecef.toECEF(romea::core::makeGeodeticCoordinates(lat, lon, 100.0));
+      romea::core::GeodeticCoordinates g3 = ecef.toWGS84(x3);
+      double hl = LambertConverter::computeLatitude(LambertConverter::computeIsometricLatitude(0.5, 0.08), 0.08);
+      c.count("interference_probes");
+      if (os.str().empty() || !std::isfinite(g3.latitude + hl)) {c.count("interference_probe_odd_output");}
+      const WGS84Coordinates w{lat, lon};
+      for (int o = 0; o < NU; ++o) {
+        int u = order[o];
+        if (!pu[u].active || !pu[u].ok) {continue;}
+        cu = u;
+        const auto & again = U[u].conv->toLambert(w);
+        c.expect("stability.after_neighbouring_facilities",
+          same_bits(again.x(), (double)pu[u].X[0]) && same_bits(again.y(), (double)pu[u].X[1]), "result_unstable",
+          params, [&]() {
+            return vh::J().raw("case", wit()).f("x_first", pu[u].X[0]).f("y_first", pu[u].X[1])
+                   .f("x_again", again.x()).f("y_again", again.y()).str();
+          });
+      }
+    }
     // ---- stencil of the 4th order central differences, every stencil point on the units in turn
     //      0,1: lat +-H   2,3: lat +-H/2   4,5: lon +-H   6,7: lon +-H/2
     double sla[8], slo[8];
@@ -544,11 +793,11 @@ static void one_case(vh::Ctx & c, uint64_t idx)
 
       // (2) origin and central meridian
       if (q.at_origin) {
-        c.expect_le("origin.to_false_origin_m", hypotl(X[0] - (LD)s.x0, X[1] - (LD)s.y0), 1e-7L, "origin",
+        c.expect_le("origin.to_false_origin_m", hypotl(X[0] - (LD)s.x0, X[1] - (LD)s.y0), un.origin_tol, "origin",
           params, [&]() {return vh::J().raw("case", wit()).f("x", X[0]).f("y", X[1]).str();});
       }
       if (q.on_meridian) {
-        c.expect_le("central_meridian.x_m", fabsl(X[0] - (LD)s.x0), 1e-7L, "central_meridian",
+        c.expect_le("central_meridian.x_m", fabsl(X[0] - (LD)s.x0), un.origin_tol, "central_meridian",
           params, [&]() {return vh::J().raw("case", wit()).f("x", X[0]).f("y", X[1]).str();});
       }
 
@@ -556,15 +805,36 @@ static void one_case(vh::Ctx & c, uint64_t idx)
       {
         LD rx, ry;
         un.ref.fwd(lat, lon, rx, ry);
-        c.maxi("forward_vs_snyder_worst_m", (double)hypotl(X[0] - rx, X[1] - ry));
+        c.maxi("forward_vs_snyder_worst_m_at_earth_scale", (double)(hypotl(X[0] - rx, X[1] - ry) / un.len_scale));
         c.expect_le("forward.vs_snyder_m", hypotl(X[0] - rx, X[1] - ry), un.snyder_tol, "forward_vs_reference",
           params, [&]() {
             return vh::J().raw("case", wit()).f("x", X[0]).f("y", X[1]).f("ref_x", rx).f("ref_y", ry).str();
           });
       }
 
+      // the radii of curvature the local scales are defined against, as the library itself states
+      // them (EarthEllipsoid), against the long double ones used below
+      if ((ip & 3) == 1) {
+        const EarthEllipsoid & el = s.use_static_grs80 ? EarthEllipsoid::GRS80 : un.ell_obj;
+        LD Mr = un.ref.M(lat), Nc = un.ref.Ncos(lat);
+        LD em = fabsl((LD)el.meridionalRadius(lat) - Mr) / Mr, et = fabsl((LD)el.transversalRadius(lat) - Nc) / Nc;
+        const LD rtol = 64 * std::numeric_limits<double>::epsilon();
+        auto w1 = [&]() {
+            return vh::J().raw("case", wit()).f("meridionalRadius", el.meridionalRadius(lat)).f("reference_M", Mr)
+                   .f("transversalRadius", el.transversalRadius(lat)).f("reference_N_cos_lat", Nc).str();
+          };
+        c.expect_le("ellipsoid.meridional_radius_rel", em, rtol, "ellipsoid_radius", params, w1);
+        c.expect_le("ellipsoid.transversal_radius_rel", et, rtol * (1 + fabsl(tanl((LD)lat))), "ellipsoid_radius", params, w1);
+      }
+
       // (1) local scales from finite differences of the library's own forward map
-      if (c.expect("fd.finite", fd_ok[u], "nonfinite", params, wit)) {
+      // the differences resolve the scales only while one ulp of a coordinate is small against the
+      // displacement over half a step (H/2 * M): otherwise the point is vacuous for this oracle
+      const LD fd_noise = 4 * std::numeric_limits<double>::epsilon() *
+        std::max(fabsl(X[0]), fabsl(X[1])) / ((LD)H / 2 * un.ref.M(lat));
+      if (fd_noise > 8e-11L) {
+        c.skip("conformal:finite_differences_unresolved_at_this_false_origin");
+      } else if (c.expect("fd.finite", fd_ok[u], "nonfinite", params, wit)) {
         LD dphi[2], dlam[2];
         for (int d = 0; d < 2; ++d) {
           LD * out = d == 0 ? dphi : dlam;
@@ -626,6 +896,48 @@ static void one_case(vh::Ctx & c, uint64_t idx)
           params, [&]() {return vh::J().raw("case", wit()).f("isolat", L).f("lat_back", lb).str();});
       }
     }
+  }
+
+  // ---- end of the case: the results kept since before the first point are still what they were,
+  //      and the same calls (temporaries as arguments this time) give the same bits again
+  {
+    lat = probe_w.latitude; lon = probe_w.longitude; pcat = "stability_probe"; cu = 0;
+    bool kept = same_bits(kept_fa.x(), fa0[0]) && same_bits(kept_fa.y(), fa0[1]) &&
+      same_bits(kept_fb.x(), fb0[0]) && same_bits(kept_fb.y(), fb0[1]) &&
+      same_bits(kept_inv.latitude, inv0[0]) && same_bits(kept_inv.longitude, inv0[1]) &&
+      same_bits(kept_pp.longitude0, pp0[0]) && same_bits(kept_pp.n, pp0[1]) && same_bits(kept_pp.c, pp0[2]) &&
+      same_bits(kept_pp.xs, pp0[3]) && same_bits(kept_pp.ys, pp0[4]);
+    c.expect("stability.kept_results_unchanged", kept, "result_unstable", params, [&]() {
+        return vh::J().raw("case", wit()).f("x_then", fa0[0]).f("x_now", kept_fa.x()).f("y_then", fa0[1])
+               .f("y_now", kept_fa.y()).f("lat_then", inv0[0]).f("lat_now", kept_inv.latitude).str();
+      });
+    Eigen::Vector2d fa1 = ua.conv->toLambert(WGS84Coordinates{probe_w.latitude, probe_w.longitude});
+    Eigen::Vector2d fb1 = ub.conv->toLambert(WGS84Coordinates{probe_w.latitude, probe_w.longitude});
+    bool again = same_bits(fa1.x(), fa0[0]) && same_bits(fa1.y(), fa0[1]) && same_bits(fb1.x(), fb0[0]) &&
+      same_bits(fb1.y(), fb0[1]);
+    double inv1[2] = {inv0[0], inv0[1]};
+    if (probe_inv_ok) {
+      lw.reset_case();
+      WGS84Coordinates i1 = ua.conv->toWGS84(Eigen::Vector2d(fa0[0], fa0[1]));
+      inv1[0] = i1.latitude; inv1[1] = i1.longitude;
+      again = again && same_bits(inv1[0], inv0[0]) && same_bits(inv1[1], inv0[1]);
+    }
+    auto pp1 = library_constants(p);
+    again = again && same_bits(pp1.longitude0, pp0[0]) && same_bits(pp1.n, pp0[1]) && same_bits(pp1.c, pp0[2]) &&
+      same_bits(pp1.xs, pp0[3]) && same_bits(pp1.ys, pp0[4]);
+    c.expect("stability.reevaluation_bit_identical", again, "result_unstable", params, [&]() {
+        return vh::J().raw("case", wit()).f("x_first", fa0[0]).f("x_again", fa1.x()).f("y_first", fa0[1])
+               .f("y_again", fa1.y()).f("sibling_x_first", fb0[0]).f("sibling_x_again", fb1.x())
+               .f("lat_first", inv0[0]).f("lat_again", inv1[0]).f("n_first", pp0[1]).f("n_again", pp1.n).str();
+      });
+    // the library's shared, mutable GRS80 object is what it was
+    const EarthEllipsoid fresh(6378137.0, 6356752.314);
+    const EarthEllipsoid & g = EarthEllipsoid::GRS80;
+    c.expect("shared_state.static_GRS80_unchanged",
+      same_bits(g.a, fresh.a) && same_bits(g.b, fresh.b) && same_bits(g.e2, fresh.e2) && same_bits(g.e, fresh.e),
+      "shared_state_changed", params, [&]() {
+        return vh::J().f("a", g.a).f("b", g.b).f("e2", g.e2).f("e", g.e).str();
+      });
   }
 }
 
